@@ -58,6 +58,28 @@ def _attr(e):
     return chain[-1] if chain else None
 
 
+def _terrain_value(e, assume):
+    """truth value of a condition built only from the model's isTerrain flag and literals, else None"""
+    if not is_node(e):
+        return None
+    k = e["k"]
+    if k == "Member" and e.get("name") == "isTerrain" and e.get("owner") == NIF:
+        return assume
+    if k == "Lit" and e.get("lk") in ("bool", "int"):
+        return bool(e.get("val"))
+    if k == "Cast":
+        return _terrain_value(e["e"], assume)
+    if k == "Unary" and e["op"] == "!":
+        v = _terrain_value(e["e"], assume)
+        return None if v is None else (not v)
+    if k == "Binary" and e["op"] in ("==", "!="):
+        a, b = _terrain_value(e["l"], assume), _terrain_value(e["r"], assume)
+        if a is None or b is None:
+            return None
+        return (a == b) if e["op"] == "==" else (a != b)
+    return None
+
+
 def run(F, chk):
     R1 = chk.rule("R12.1", "OptimizeFor copies the same set of shape attributes from the old shape to the new one in both conversion "
                            "directions, covering every reference enumerated by the shape's base classes and the shape's own "
@@ -131,30 +153,37 @@ def run(F, chk):
     chk.floor(R1, 14)
 
     # ---------------------------------------------------------------- R12.2
-    class M(flow.Flow):
-        def on_stmt(self, s, st):
-            # `if (!isTerrain) RenameDuplicateShapes();` — afterwards either the names were resolved or the model is terrain
-            if st is not None and s["k"] == "If" and s.get("else") is None and show(s["cond"]) == "!isTerrain" and \
-                    any(x["k"] == "Call" and x.get("fn") == "nifly::NifFile::RenameDuplicateShapes" for x in walk(s["then"])):
-                return st | {("D", "renamed")}
-            return st
+    def make(assume_terrain):
+        class M(flow.Flow):
+            def const_cond(self, e):
+                r = flow.Flow.const_cond(self, e)
+                if r is not None:
+                    return r
+                return _terrain_value(e, assume_terrain)
 
-        def on_node(self, n, st):
-            if st is None or n["k"] != "Call":
+            def on_node(self, n, st):
+                if st is None or n["k"] != "Call":
+                    return st
+                if n.get("fn") == "nifly::NifFile::RenameDuplicateShapes":
+                    return st | {("D", "renamed")}
+                if n.get("fn") == "nifly::NiHeader::ReplaceBlock":
+                    if not self.muted:
+                        ok = ("D", "renamed") in st or assume_terrain
+                        sites.append((n, ok))
+                    return st | {("O", "partitions")}
+                if n.get("fn") == "nifly::NifFile::UpdateSkinPartitions":
+                    return frozenset(f for f in st if f != ("O", "partitions"))
+                if (n.get("short") or "").startswith("DeleteUnreferencedBlocks"):
+                    return st | {("D", "pruned")}
                 return st
-            if n.get("fn") == "nifly::NiHeader::ReplaceBlock":
-                if not self.muted:
-                    ok = ("D", "renamed") in st or flow.has_guard(st, "isTerrain", True)
-                    sites.append((n, ok))
-                return st | {("O", "partitions")}
-            if n.get("fn") == "nifly::NifFile::UpdateSkinPartitions":
-                return frozenset(f for f in st if f != ("O", "partitions"))
-            if (n.get("short") or "").startswith("DeleteUnreferencedBlocks"):
-                return st | {("D", "pruned")}
-            return st
+        return M
 
+    # analysed once for each value of the model's terrain flag (the rename is required only for non-terrain models)
     sites = []
-    m = M(F, fn)
+    m_terrain = make(True)(F, fn)
+    m_terrain.run()
+    sites = []
+    m = make(False)(F, fn)
     m.run()
     chk.require(len(sites) >= 2, "fewer than 2 ReplaceBlock sites in OptimizeFor")
     for n, ok in sites:
